@@ -271,7 +271,8 @@ size_t Decode(const std::string &base64_str, std::vector<uint8_t> &raw_data)
     if (out_len == 0)
         return 0;
 
-    raw_data.reserve(raw_data.size() + out_len);
+    const size_t old_size = raw_data.size();
+    raw_data.reserve(old_size + out_len);
 
     uint8_t tmp = 0;
     uint8_t s = 0;
@@ -312,7 +313,7 @@ size_t Decode(const std::string &base64_str, std::vector<uint8_t> &raw_data)
         s &= 0x03;
     }
 
-    return out_len;
+    return raw_data.size() - old_size;  //! what was really decoded (padding may come early)
 }
 
 }
